@@ -109,7 +109,10 @@ def run(ctx):
                     if fault[1] < 1 or fault[1] > k + 1:
                         continue
                 else:
-                    app = build(iface, env)
+                    try:
+                        app = build(iface, env)
+                    except Exception:  # constructor refuses (noted below): not a protocol matter
+                        continue
                 req = servers.Req()
                 r, ended = execute(iface, app, req, fault if fault[0] != "producer" else None)
                 case = {"recipe": name, "iface": iface, "fault": list(fault)}
@@ -158,6 +161,10 @@ def run(ctx):
                             ctx.nontriv((name, iface, zc, method, str(hdrs), str(fault)))
         # ---- WebSocket denial: every recipe sent as the HTTP answer to a websocket handshake (ASGI extension), and without the extension
         for name, build, pieces in R:
+            try:
+                build("asgi", env)
+            except Exception:  # constructor refuses (already noted above): not a protocol matter
+                continue
             for fault in (None, ("sendfail", 1), ("sendfail", 2), ("disconnect", 1)):
                 case = {"recipe": "WebsocketDenialResponse(%s)" % name, "iface": "asgi", "zerocopy": False, "method": "GET", "headers": [],
                         "fault": list(fault) if fault else None}
